@@ -25,7 +25,7 @@ MARK = "BEHAVIOUR "
 
 
 def _c(**k):
-    d = dict(kind="-", via="-", sender="-", origin="-", claimed="-", key="-", sig="-")
+    d = dict(kind="-", via="-", sender="-", origin="-", claimed="-", key="-", sig="-", carrier="-")
     d["from"] = "-"
     d.update(k)
     return d
